@@ -38,6 +38,8 @@ FIXED = [
      "`@l; call @l; hold;` decompiled to `@label_0; call @label_0; jump @label_0;` (hold lost)"),
     ("C02", "fix: fall back to SsbScript when a jump to a label was written but not the label",
      "routines [[Jump->2nd End],[End, End]] and [Call->the Jump, Jump->the Call]: text referenced a label that was never written and did not compile (175 of 55k inputs); now the exact fallback"),
+    ("C02", "fix: dungeon mode values other than 0..3 were printed as the 'closed' constant",
+     "`switch (dungeon_mode(D)) { case DMODE_OPEN: .. }` (or any constant / other number as case value or flag_SetDungeonMode value) decompiled to `case DMODE_CLOSE:` (476 of 55k inputs under seed rotation 2)"),
     ("C09", "fix: inserted break_loop/continue statements overwrote the source map entry of the op before them",
      "[op, Call->itself, End]: the entry of the Call pointed at the line of the inserted `break_loop;` (8865 of 55k inputs)"),
     ("C09", "fix: source map line of elseif headers",
